@@ -39,7 +39,7 @@ def install(it):
     TM[('Itertools', 'find_position')] = find_position
 
     def vec_remove(it_, c, a):
-        xs = models.deref(a[0]).items; i = models.cint(it_, a[1])
+        xs = models.deref(a[0]).items; i = models.cint(it_, a[1], fork=True)
         if i >= len(xs):
             raise Panic('vec-remove-oob', 'removal index (is %d) should be < len (is %d)' % (i, len(xs)), it_.stack)
         return xs.pop(i)
@@ -374,3 +374,41 @@ def render(t, depth=0):
 
 def table_factory(n):
     return TableSpec(n)
+
+
+class MoveSpec:
+    """ide::signature_help::move_element(vec, from, to) for every vector length n and ARBITRARY usize indices: never panics,
+    and the result is the input with the element at `from` moved to position `to` (or unchanged when an index is out of range)"""
+
+    def __init__(self, n):
+        self.n = n
+
+    def make_interp(self):
+        it = W.interp('ide')
+        install(it)
+        self.f = z3.BitVec('from', 64); self.t = z3.BitVec('to', 64)
+        return it
+
+    def run_path(self, it):
+        n = self.n
+        v = VecV([IntV(i, 32, 0) for i in range(n)])
+        it.run_body(body(r'^ide::signature_help::move_element$'), [RefV([v], 0), IntV(self.f, 64, 0), IntV(self.t, 64, 0)])
+        got = [x.v for x in v.items]
+        bad = []
+        if sorted(got) != list(range(n)):
+            bad.append('C10: move_element lost or duplicated an element: %s' % got)
+        m = it.get_model()
+        fv = m.eval(self.f, model_completion=True).as_long(); tv = m.eval(self.t, model_completion=True).as_long()
+        rec = {'cls': 'moved' if got != list(range(n)) else 'unchanged', 'ok': True, 'sample': {'len': n, 'from': fv, 'to': tv, 'result': got}}
+        if bad:
+            rec.update({'cls': 'violation', 'ok': False, 'why': bad, 'cex': {'len': n, 'from': fv, 'to': tv}})
+        return rec
+
+    def on_panic(self, it, e):
+        m = it.get_model()
+        fv = m.eval(self.f, model_completion=True).as_long(); tv = m.eval(self.t, model_completion=True).as_long()
+        return {'cls': 'panic:' + e.kind, 'ok': False, 'why': ['C10: signature help helper move_element(len %d, from %d, to %d) panics: %s' % (self.n, fv, tv, e)], 'cex': {'len': self.n, 'from': fv, 'to': tv}}
+
+
+def move_factory(n):
+    return MoveSpec(n)
